@@ -55,6 +55,7 @@ type RunCtx struct {
 	fired    bool // some fault / history / switch actually fired
 	oracles  int  // oracle clauses evaluated on real library output
 	viol     *Violation
+	Aux      uint64            // secondary distinctness measure (C19/C20: hash of the interleaving)
 	Known    map[string]string // open known findings: sig -> description
 	KnownHit []string
 	Index    uint64
@@ -155,6 +156,7 @@ type RunResult struct {
 	Trace      []string   `json:"trace,omitempty"`
 	FP         uint64     `json:"fp"`
 	NonTrivial bool       `json:"nontrivial"`
+	Aux        uint64     `json:"aux,omitempty"`
 	Infra      string     `json:"infra,omitempty"`
 }
 
@@ -189,6 +191,7 @@ func executeRun(sc *scenario, tier string, tape *Tape, stats *Stats, tracing boo
 	res.KnownHit = c.KnownHit
 	res.FP = tape.Fingerprint()
 	res.NonTrivial = c.fired && c.oracles > 0
+	res.Aux = c.Aux
 	if tracing || c.viol != nil {
 		res.Tape = append([]uint64(nil), tape.Out...)
 		res.Trace = c.Trace
